@@ -319,7 +319,7 @@ def gen(rng, tier):
     jobs = [witness_job(1), witness_job(0)] + jobs
     cases = [make_case(jobs[i:i + OPS_PER_CASE]) for i in range(0, len(jobs), OPS_PER_CASE)]
     # the configuration paths of the setting (consumer builder x client setting x from hosts / from a client)
-    for target in (("plain-key", "plain-middle") if quick else ("plain-key", "plain-middle", "plain-tiny", "plain-last-null")):
+    for target in (("plain-key", "plain-middle") if quick else ("plain-key", "plain-middle", "plain-tiny")):      # (targets with key or value bytes to alter)
         for source in ("client", "hosts"):
             for client_flag in ((None, 0, 1) if source == "client" else (None,)):
                 for builder_flag in (None, 0, 1):
